@@ -5,12 +5,11 @@ in between, and of the SOCKS5 receive path of QXmppTransferIncomingJob.
 
 What the code does today is modelled, not what it should do:
 
-* Both jobs keep the block counter in `int ibbSequence` (QXmppTransferJobPrivate).  The sender
-  writes `dataIq.setSequence(job->d->ibbSequence++)` where `setSequence(quint16)` truncates to
-  16 bits; the receiver compares `iq.sequence() != job->d->ibbSequence`, i.e. the 16-bit wire
-  value (promoted to int) against its never-wrapping `int`.  Here: counters are `Nat` (the `int`
-  cannot overflow on the receiver, which only increments on a match < 65536; the sender's `int`
-  overflows after 2^31 blocks, outside the model), the wire field is `UInt16`.
+* Both jobs keep the block counter in `quint16 ibbSequence` (QXmppTransferJobPrivate; it was `int`
+  before repo commit 49cbe2e, which made every transfer of more than 65536 blocks fail).  The
+  sender writes `dataIq.setSequence(job->d->ibbSequence++)`, the receiver compares
+  `iq.sequence() != job->d->ibbSequence` and increments: all three are 16-bit and wrap from 65535
+  to 0, as XEP-0047 prescribes.  Here: `UInt16` everywhere.
 * The receiver finds the job by (sender JID, session id) — `getIncomingJobBySid` — and needs
   `TransferState` for `<data/>`, but NOT for `<open/>` and `<close/>`.
 * The final check (`checkData`) compares the byte count only if a non-zero size was announced
@@ -69,8 +68,8 @@ structure Recv where
   hash : Option (List UInt8)
   state : JState := .start
   error : JError := .none
-  /-- `d->ibbSequence` (int) -/
-  expected : Nat := 0
+  /-- `d->ibbSequence` (quint16, wraps) -/
+  expected : UInt16 := 0
   /-- bytes written to the output device, newest first -/
   accRev : List UInt8 := []
   blockSize : Nat := 16384
@@ -114,7 +113,7 @@ def recv (H : List UInt8 → List UInt8) (r : Recv) (st : Stanza) : Recv × Repl
       (r.checkData H, { id := st.id, to := st.sender, err := none })
     | .data seq payload =>
       if r.state ≠ .transfer then (r, { id := st.id, to := st.sender, err := some .itemNotFound })
-      else if seq.toNat ≠ r.expected then (r, { id := st.id, to := st.sender, err := some .unexpectedRequest })
+      else if seq ≠ r.expected then (r, { id := st.id, to := st.sender, err := some .unexpectedRequest })
       else ({ r with accRev := payload.reverse ++ r.accRev, expected := r.expected + 1 },
             { id := st.id, to := st.sender, err := none })
     | .open bs =>
@@ -129,8 +128,8 @@ structure Send where
   blockSize : Nat
   /-- unread part of the input device -/
   rest : List UInt8
-  /-- `d->ibbSequence` (int) -/
-  seq : Nat := 0
+  /-- `d->ibbSequence` (quint16, wraps) -/
+  seq : UInt16 := 0
   /-- id of the last request sent (`d->requestId`) -/
   requestId : Nat := 1
   nextId : Nat := 2
@@ -163,7 +162,7 @@ def sender (s : Send) (rep : Reply) : Send × Option Stanza :=
       if s.rest.take s.blockSize ≠ [] then
         ({ s with state := .transfer, rest := s.rest.drop s.blockSize, seq := s.seq + 1,
                   requestId := s.nextId, nextId := s.nextId + 1 },
-         some { id := s.nextId, sender := 0, sid := 0, kind := .data (UInt16.ofNat s.seq) (s.rest.take s.blockSize) })
+         some { id := s.nextId, sender := 0, sid := 0, kind := .data s.seq (s.rest.take s.blockSize) })
       else
         (({ s with state := .transfer, requestId := s.nextId, nextId := s.nextId + 1 }).terminate .none,
          some { id := s.nextId, sender := 0, sid := 0, kind := .close })
